@@ -97,7 +97,11 @@ func coins(amounts ...int64) sdk.Coins {
 func delegators(n int) map[string]uint32 {
 	m := map[string]uint32{}
 	for i := 0; i < n; i++ {
-		m[cAddr(40+i).String()] = uint32(1 + i*7)
+		k := cAddr(40 + i).String()
+		if i%2 == 1 {
+			k = strings.ToUpper(k) // a hex address is valid in either case; the codec must keep the key as written
+		}
+		m[k] = uint32(1 + i*7)
 	}
 	return m
 }
